@@ -53,7 +53,7 @@ def split_records(trace, passno=1):
         elif k == "stmt":
             if cur is not None and cur["pass"] == passno:
                 cur.update(depth=e["tagd"], rec=e["rec"], wasmac=e["wasmac"], wasif=e["wasif"], ifs=e["ifs"],
-                           ifasm=e["ifasm"], opu=e["op"], std=e.get("std", 0), sed=e.get("sed", 0))
+                           ifasm=e["ifasm"], opu=e["op"], argc=e.get("argc", 0), std=e.get("std", 0), sed=e.get("sed", 0))
                 out.append(cur)
             cur = None
             cpu = e["cpu"]
@@ -72,12 +72,18 @@ def records_by_line(allrecs, texts):
     return out
 
 
-def trace_event(rec, kind="SPLIT", orig=None):
+def trace_event(rec, kind="SPLIT", orig=None, nest=None, fin0=None):
+    """nest: the secondary splitter (SourceLine.tla Resplit kind) of a statement with a compound parameter;
+    then the event also carries what the code generator finally assembled (stmt hook: mnemonic, parameter
+    count) for the rewritten line (fin) and for the original line (fin0)"""
     e = rec["e"]
     ev = {"a": kind, "raw": codes(e["raw"]), "p": params_codes(rec["p"]), "lab": codes(e["lab"]),
           "op": codes(e["op"]), "attr": codes(e["attr"]), "args": [codes(a["a"]) for a in e["args"]]}
     if orig is not None:
         ev["orig"] = codes(orig)
+        ev["nest"] = nest or ""
+        ev["fin"] = {"op": codes(rec.get("opu", "")), "argc": rec.get("argc", 0)}
+        ev["fin0"] = {"op": codes(fin0[0]), "argc": fin0[1]} if fin0 else ev["fin"]
     return ev
 
 
@@ -327,9 +333,82 @@ def _case_symbols(s, mode, qq, symset):
     return "".join(out)
 
 
-def rewrite_line(raw, rec, vec, stats, info=None):
+def nest_form(forms, rec):
+    """the statement form with a compound parameter (SourceLine_Nest.tla Forms, printed by TLC) this record falls
+    under, or None.  match "ops": code generator (header id) and written mnemonic; match "resplit": the code
+    generator replaced the mnemonic (stmt hook) - every machine statement of such a family"""
+    if not forms or rec is None:
+        return None
+    e = rec["e"]
+    opu = e["op"].upper()
+    for f in forms:
+        if rec.get("cpu") not in f["hdr"]:
+            continue
+        if f["match"] == "ops" and opu in f["ops"]:
+            return f
+        if f["match"] == "resplit" and opu and rec.get("opu", "").upper() != opu:
+            return f
+    return None
+
+
+def ws_runs(s, qq):
+    """(start, end) of the white-space runs of s that lie between two other characters, outside quotes,
+    parentheses and brackets as QuotPosCore tracks them"""
+    inq, clear = quote_states(s, 0, qq)
+    out = []
+    i = 0
+    n = len(s)
+    while i < n:
+        if s[i] in " \t":
+            j = i
+            while j < n and s[j] in " \t":
+                j += 1
+            if i > 0 and j < n and all(clear[k] and not inq[k] for k in range(i, j)) and clear[j] :
+                out.append((i, j))
+            i = j
+        else:
+            i += 1
+    return out
+
+
+def regap(txt, qq, gvec, used, maxgaps):
+    """rewrite the field gaps of a compound parameter: the k-th white-space run of the statement (k counted in
+    used[0]) becomes gvec[k mod len]; at most maxgaps runs per statement (0 = all)"""
+    out = []
+    last = 0
+    for (a, b) in ws_runs(txt, qq):
+        if maxgaps and used[0] >= maxgaps:
+            break
+        out.append(txt[last:a])
+        out.append(text(gvec[used[0] % len(gvec)]))
+        used[0] += 1
+        last = b
+    out.append(txt[last:])
+    return "".join(out)
+
+
+def rewrite_preproc(raw, forms, gvec, stats, info):
+    """`#define NAME text`: the gaps behind the command and behind the name (form "preproc" of the table)"""
+    f = next((x for x in (forms or []) if x["match"] == "preproc"), None)
+    body = raw.lstrip(" \t")
+    if f is None or gvec is None or not body.startswith("#"):
+        return raw
+    m = re.match(r"#([A-Za-z]+)([ \t]+)(\S+)([ \t]+)(\S.*)$", body)
+    if not m or m.group(1).upper() not in f["ops"]:
+        return raw
+    new = raw[:len(raw) - len(body)] + "#" + m.group(1) + text(gvec[0]) + m.group(3) + text(gvec[1 % len(gvec)]) + m.group(5)
+    if new != raw:
+        stats["nest"] = stats.get("nest", 0) + 1
+        info["nest"] = f["name"]
+        info["nest_level"] = f["level"]
+        info["nest_only"] = True
+    return new
+
+
+def rewrite_line(raw, rec, vec, stats, info=None, forms=None, gvec=None):
     """one physical line (no line end) -> rewritten line.  rec: split/stmt record of the original run or None.
-    info (dict) receives what was done to the line: dtab, cmt_changed, apos_end, cpu."""
+    info (dict) receives what was done to the line: dtab, cmt_changed, apos_end, cpu, nest.
+    forms / gvec: statement forms with a compound parameter and the gap vector drawn for this line"""
     if info is None:
         info = {}
     import zlib
@@ -360,6 +439,10 @@ def rewrite_line(raw, rec, vec, stats, info=None):
     if rec.get("rec"):
         mode = "keep"
     ws = lambda k, dflt=" ": text(vec[k]) if vec[k] else dflt
+    form = nest_form(forms, rec) if gvec is not None else None
+    if rec.get("rec") or rec.get("wasmac"):
+        form = None                 # recorded into a body / macro call arguments: text, not fields
+    used = [0]
     out = []
     if sh.lab is not None:
         lab = raw[sh.lab[0]:sh.lab[1]]
@@ -398,7 +481,15 @@ def rewrite_line(raw, rec, vec, stats, info=None):
                             info["dtab"] = True
                         stats["dtab"] = stats.get("dtab", 0) + 1
                     out.append(text(vec["pre"]) + dv + text(vec["post"]))
-                out.append(_case_symbols(raw[s:t], mode_args, qq, symset))
+                atxt = raw[s:t]
+                if form is not None and (form["params"] == "all" or k == 0):
+                    atxt2 = regap(atxt, qq, gvec, used, form["maxgaps"])
+                    if atxt2 != atxt:
+                        info["nest"] = form["name"]
+                        info["nest_rs"] = form["rs"]
+                        info["nest_level"] = form["level"]
+                    atxt = atxt2
+                out.append(_case_symbols(atxt, mode_args, qq, symset))
             if len(sh.divs) >= len(sh.args):          # trailing divider = empty last parameter
                 out.append(raw[sh.divs[-1]])
     body = "".join(out)
@@ -415,6 +506,8 @@ def rewrite_line(raw, rec, vec, stats, info=None):
         stats["toolong"] += 1
         return raw
     stats["rewritten"] += 1
+    if info.get("nest"):
+        stats["nest"] = stats.get("nest", 0) + 1
     return new
 
 
@@ -522,7 +615,7 @@ def macro_regions(lines, recs, r, maxregions=3, forced=False, maxlen=1500):
     return sorted(regions)
 
 
-def rewrite_file(data, recs, fvec, lvecs, r, do_lines=True):
+def rewrite_file(data, recs, fvec, lvecs, r, do_lines=True, forms=None, gvecs=None):
     """data: bytes of the main source; recs: {line number -> record of the original run}.
     Returns (items, stats); items = list of dicts {"orig": text or None (inserted line), "new": text, "eol": str,
     "n": original line number or None}.  render_items() turns them into the file."""
@@ -561,8 +654,12 @@ def rewrite_file(data, recs, fvec, lvecs, r, do_lines=True):
             stats["cont_eol"] = stats.get("cont_eol", 0) + int(neol != eol)
         else:
             vec = r.choice(lvecs)
+            gvec = r.choice(gvecs) if gvecs else None
             info = {}
-            new = rewrite_line(ln, recs.get(i + 1), vec, stats, info)
+            if recs.get(i + 1) is None and ln.lstrip(" \t").startswith("#"):
+                new = rewrite_preproc(ln, forms, gvec, stats, info)
+            else:
+                new = rewrite_line(ln, recs.get(i + 1), vec, stats, info, forms, gvec)
             neol = eol_for(eol)
         items.append({"orig": ln, "new": new, "eol": neol, "n": i + 1, "info": info if not (cont or cont_prev or not do_lines) else {}})
         if any(a <= i < b for (a, b) in regions):
@@ -593,6 +690,8 @@ def classify(item):
         return "dsp56k-tab-divider"
     if info.get("apos_end") and info.get("cmt_added") and info.get("cpu") in (0x51, 0x7b):
         return "apostrophe-register-comment"
+    if info.get("nest_only") and info.get("nest_level") == "silent":
+        return "preproc-define-gaps"          # the manual does not describe the preprocessor: SPEC-DRIFT only
     return None
 
 
